@@ -82,13 +82,37 @@ func (a arch) specJSON() map[string]interface{} {
 	return map[string]interface{}{"comment": vutil.Ints(a.Comment), "files": fs}
 }
 
+// guarded hands a function its argument as the front part of a larger buffer (the capacity of the slice reaches into
+// the guard bytes, as it does when a caller passes part of a file it has read); check reports whether the argument and
+// the bytes behind it are what they were.  None of the functions under test may write to either.
+var guardBytes = []byte(" -- g --\n>-- g --\n")
+
+var guardRes *vutil.Result
+
+func guarded(fn string, in []byte) (arg []byte, check func()) {
+	buf := make([]byte, 0, len(in)+len(guardBytes))
+	buf = append(append(buf, in...), guardBytes...)
+	orig := append([]byte(nil), in...)
+	return buf[:len(in)], func() {
+		if guardRes == nil || (bytes.Equal(buf[:len(in)], orig) && bytes.Equal(buf[len(in):], guardBytes)) {
+			return
+		}
+		guardRes.Violate(vutil.Finding{Kind: "argument-or-neighbour-modified", Class: fn + ":" + string(orig),
+			What: fmt.Sprintf("txtar.%s(%q) wrote to its argument or to the caller's bytes behind it: the buffer %q became %q",
+				fn, orig, string(orig)+string(guardBytes), buf),
+			Input: inputDesc(orig)})
+	}
+}
+
 func safeParse(in []byte) (a arch, panicked interface{}) {
 	defer func() {
 		if r := recover(); r != nil {
 			panicked = fmt.Sprint(r)
 		}
 	}()
-	return fromReal(txtar.Parse(in)), nil
+	arg, check := guarded("Parse", in)
+	defer check()
+	return fromReal(txtar.Parse(arg)), nil
 }
 
 func safeNeedsQuote(in []byte) (v bool, panicked interface{}) {
@@ -97,7 +121,9 @@ func safeNeedsQuote(in []byte) (v bool, panicked interface{}) {
 			panicked = fmt.Sprint(r)
 		}
 	}()
-	return txtar.NeedsQuote(in), nil
+	arg, check := guarded("NeedsQuote", in)
+	defer check()
+	return txtar.NeedsQuote(arg), nil
 }
 
 func safeQuote(in []byte) (q []byte, err error, panicked interface{}) {
@@ -106,7 +132,9 @@ func safeQuote(in []byte) (q []byte, err error, panicked interface{}) {
 			panicked = fmt.Sprint(r)
 		}
 	}()
-	q, err = txtar.Quote(in)
+	arg, check := guarded("Quote", in)
+	defer check()
+	q, err = txtar.Quote(arg)
 	// what was returned stays what it is: a later call on the same goroutine must not reach into an earlier result
 	txtar.Quote(decoyBody)
 	return q, err, nil
@@ -121,7 +149,9 @@ func safeUnquote(in []byte) (q []byte, err error, panicked interface{}) {
 			panicked = fmt.Sprint(r)
 		}
 	}()
-	q, err = txtar.Unquote(in)
+	arg, check := guarded("Unquote", in)
+	defer check()
+	q, err = txtar.Unquote(arg)
 	txtar.Unquote([]byte(">decoy\n>-- decoy --\n>decoy decoy decoy\n"))
 	return q, err, nil
 }
@@ -140,7 +170,18 @@ func safeFormat(a arch) (out []byte, panicked interface{}) {
 			panicked = fmt.Sprint(r)
 		}
 	}()
-	out = txtar.Format(toReal(a))
+	r := toReal(a)
+	for i := range r.Files {
+		arg, check := guarded("Format: file data ", r.Files[i].Data)
+		defer check()
+		r.Files[i].Data = arg
+	}
+	carg, ccheck := guarded("Format: comment ", r.Comment)
+	defer ccheck()
+	if r.Comment != nil {
+		r.Comment = carg
+	}
+	out = txtar.Format(r)
 	txtar.Format(decoyArchive)
 	return out, nil
 }
@@ -329,6 +370,7 @@ func main() {
 	maxlen := flag.Int("maxlen", 120, "maximum length of random inputs")
 	flag.Parse()
 	res := vutil.NewResult()
+	guardRes = res
 	switch *mode {
 	case "replay":
 		vutil.ParallelLines(*cases, func(line []byte) {
